@@ -37,15 +37,15 @@ type Op[W any] struct {
 }
 
 type BFS[W any] struct {
-	Name     string
-	New      func() W
-	Ops      []Op[W]
-	Key      func(w W) string    // canonical state key: content + hidden representation
-	Check    func(w W) *ev.Fail  // state invariant, evaluated in every reached state
-	Visit    func(w W, path []string) // optional: called once per new state (single threaded)
-	MaxDepth int                 // 0 = until fixpoint
-	Deadline time.Time           // zero = none; hitting it ends the run with exhaustive=false
-	MaxStates int                // 0 = none
+	Name      string
+	New       func() W
+	Ops       []Op[W]
+	Key       func(w W) string         // canonical state key: content + hidden representation
+	Check     func(w W) *ev.Fail       // state invariant, evaluated in every reached state
+	Visit     func(w W, path []string) // optional: called once per new state (single threaded)
+	MaxDepth  int                      // 0 = until fixpoint
+	Deadline  time.Time                // zero = none; hitting it ends the run with exhaustive=false
+	MaxStates int                      // 0 = none
 }
 
 type node struct {
@@ -412,8 +412,8 @@ type Scenario interface {
 	Replay(r *ev.Run, raw json.RawMessage)
 }
 
-func (b *BFS[W]) ScenarioName() string { return b.Name }
-func (b *BFS[W]) Exec(r *ev.Run)       { b.Run(r) }
+func (b *BFS[W]) ScenarioName() string  { return b.Name }
+func (b *BFS[W]) Exec(r *ev.Run)        { b.Run(r) }
 func (p *Product) ScenarioName() string { return p.Name }
 
 // RunAll runs the scenarios (or only the one named in a replay document).
